@@ -20,6 +20,7 @@ from ..cfg import (CFG, call_name, calls_in, walk_no_nested, parents_map, guards
 from ..core import AnalysisError, Ctx, Func, norm
 from ..effects import Effects
 from ..util import branch_raises
+from ..pat import find as pfind, has as phas, match as pmatch
 
 SPEC = {
     "explanation": (
@@ -150,6 +151,9 @@ def r11_3(ctx: Ctx, rule="R11.3"):
     avail = avail or "self._available_mgro_ordered"
     plen = plen or "len(%s)" % pattern
     window = "%s[%s:%s + %s]" % (avail, start, start, plen)
+    # the 'a new block starts here' flag: the boolean initialised to True before the loop
+    nbs = [b_["V_nb"] for st_, b_ in pfind(f.node, "V_nb = True") if st_ in f.node.body]
+    nbvar = nbs[0] if nbs else "new_block"
     n = 0
     for p in enum_paths(l.body):
         matched = None
@@ -165,7 +169,7 @@ def r11_3(ctx: Ctx, rule="R11.3"):
                 if not eq:
                     ctx.ob(rule, f, t, False, "a run matches when every residue kind in the window equals the pattern "
                            "(`(window == pattern).all()`) -- the test is `%s`" % norm(t), node=t)
-            if norm(tt) == "new_block":
+            if isinstance(tt, ast.Name) and tt.id == nbvar:
                 newblk_cond = (o != neg)
         if matched is None:
             # a path that never evaluates the match test is a 'no instance here' path as well
@@ -187,7 +191,7 @@ def r11_3(ctx: Ctx, rule="R11.3"):
             if newblk_cond is not None:
                 ok = ok and ((newblk_cond and len(rec_new) == 1) or (not newblk_cond and len(rec_inc) == 1))
                 if newblk_cond:
-                    ok = ok and any(isinstance(s_, ast.Assign) and norm(s_.targets[0]) == "new_block" and norm(s_.value) == "False" for s_ in st)
+                    ok = ok and any(isinstance(s_, ast.Assign) and norm(s_.targets[0]) == nbvar and norm(s_.value) == "False" for s_ in st)
             if rec_new:
                 a = rec_new[0].value.args[0]
                 ok = ok and isinstance(a, (ast.List, ast.Tuple)) and [norm(e) for e in a.elts] == [molidx, start, "1"] \
@@ -198,7 +202,7 @@ def r11_3(ctx: Ctx, rule="R11.3"):
                    records=len(rec_new) + len(rec_inc), consumes=len(consume), advance=[norm(a.value) for a in adv])
         else:
             ok = not rec_new and not rec_inc and not consume and len(adv) == 1 and const_int(adv[0].value) == 1
-            newblk = any(isinstance(s, ast.Assign) and norm(s.targets[0]) == "new_block" and norm(s.value) == "True" for s in st)
+            newblk = any(isinstance(s, ast.Assign) and norm(s.targets[0]) == nbvar and norm(s.value) == "True" for s in st)
             ctx.ob(rule, f, "mismatch path: %s" % p.describe()[:200], ok and newblk,
                    "a mismatch records nothing, consumes nothing, advances by one and ends the current block", node=l)
     ctx.floor(rule, n, 3, "paths of the scanner loop body")
@@ -208,16 +212,21 @@ def r11_3(ctx: Ctx, rule="R11.3"):
            "the window never runs past the end of the residue list", node=l)
     # the search starts at the first occurrence found by the validator
     add = ctx.func("System.add_molecule_top")
-    cs = [c for c in calls_in(add.node) if call_name(c) == f.name]
-    okc = bool(cs) and len(cs[0].args) == 3 and norm(cs[0].args[2]) == "start_index" and norm(cs[0].args[1]) == "mol_index"
-    ctx.ob(rule, add, cs[0] if cs else "scanner call", okc,
+    top_p = [p_ for p_ in add.params if p_ != "self"][0]
+    cs = pfind(add.node, "self.%s(E_pat, V_mi, V_si)" % f.name)
+    okc = False
+    okm = False
+    if cs:
+        b_ = cs[0][1]
+        okc = phas(add.node, "%s = self._check_index_in_available_mgro(%s, %s)" % (b_["V_si"], b_["E_pat"], top_p))
+        mi = pfind(add.node, "%s = len(self.different_molecules)" % b_["V_mi"])
+        ap = pfind(add.node, "self.different_molecules.append(V_m)")
+        okm = bool(mi) and bool(ap) and mi[0][0].lineno < ap[0][0].lineno < cs[0][0].lineno
+    ctx.ob(rule, add, cs[0][0] if cs else "scanner call", okc,
            "the scan starts at the first matching run and labels instances with the index of the molecule just appended",
-           node=cs[0] if cs else add.node)
-    mi = [s for s in add.node.body if isinstance(s, ast.Assign) and norm(s.targets[0]) == "mol_index"]
-    ap = [s for s in add.node.body if isinstance(s, ast.Expr) and "different_molecules.append" in norm(s)]
-    okm = bool(mi) and bool(ap) and norm(mi[0].value) == "len(self.different_molecules)" and mi[0].lineno < ap[0].lineno
-    ctx.ob(rule, add, mi[0] if mi else "molecule index", okm,
-           "the kind index is the position the new molecule takes in different_molecules", node=mi[0] if mi else add.node)
+           node=cs[0][0] if cs else add.node)
+    ctx.ob(rule, add, "molecule index", okm,
+           "the kind index is the position the new molecule takes in different_molecules", node=add.node)
 
 
 def r11_6(ctx: Ctx, rule="R11.6"):
@@ -248,20 +257,32 @@ def r11_6(ctx: Ctx, rule="R11.6"):
     ctx.ob(rule, f, loops[0] if loops else "run search", ok,
            "the run search returns the first position where the window of residue kinds equals the species' pattern"
            + ("" if ok else " -- " + why), node=loops[0] if loops else f.node)
-    nf = [n_ for n_ in walk_no_nested(f.node) if isinstance(n_, ast.If) and norm(n_.test) == "start_index is None" and branch_raises(n_.body)]
-    ctx.ob(rule, f, nf[0] if nf else "not-found test", bool(nf), "no matching run means the topology is refused (raise)", node=nf[0] if nf else f.node)
+    hitvar = norm(assigns[0].targets[0]) if loops and isinstance(loops[0].target, ast.Tuple) and assigns else "start_index"
+    nf = [n_ for n_ in walk_no_nested(f.node) if isinstance(n_, ast.If) and norm(n_.test) == "%s is None" % hitvar and branch_raises(n_.body)]
+    init_none = phas(f.node, "%s = None" % hitvar)
+    rets = [r_ for r_ in walk_no_nested(f.node) if isinstance(r_, ast.Return)]
+    ctx.ob(rule, f, nf[0] if nf else "not-found test", bool(nf) and init_none and bool(rets) and all(norm(r_.value) == hitvar for r_ in rets),
+           "no matching run means the topology is refused (raise); otherwise the position found is returned", node=nf[0] if nf else f.node)
     # signature lookup and first-instance residues in add_molecule_top
+    top_p = [p_ for p_ in add.params if p_ != "self"][0]
     sig = [n_ for n_ in walk_no_nested(add.node) if isinstance(n_, ast.If) and isinstance(n_.test, ast.Compare)
            and isinstance(n_.test.ops[0], ast.NotIn) and branch_raises(n_.body)]
-    ctx.ob(rule, add, sig[0] if sig else "signature lookup", bool(sig) and norm(sig[0].test.comparators[0]) == "gro_mols_resnames",
-           "a residue signature (name, atom count) that does not occur in the coordinate file refuses the topology", node=sig[0] if sig else add.node)
-    rs = [s_ for s_ in add.node.body if isinstance(s_, ast.Assign) and norm(s_.targets[0]) == "residues"]
-    okr = bool(rs) and norm(rs[0].value).replace(" ", "") == "self.system_gro[start_index:start_index+len(index_mol_gro)]"
-    ctx.ob(rule, add, rs[0] if rs else "first instance", okr,
-           "the species' template molecule is built from the residues of the first matching run", node=rs[0] if rs else add.node)
-    mk = [c for c in calls_in(add.node) if call_name(c) == "Molecule"]
-    ctx.ob(rule, add, mk[0] if mk else "Molecule(...)", bool(mk) and [norm(a) for a in mk[0].args] == [add.params[1], "residues"],
-           "the template is checked against the topology (Molecule(topology, residues))", node=mk[0] if mk else add.node)
+    oksig = False
+    if sig:
+        table = norm(sig[0].test.comparators[0])
+        oksig = phas(add.node, "%s = self.system_gro.molecules_resname_len_index" % table) or table == "self.system_gro.molecules_resname_len_index"
+        lp_ = [a_ for a_ in walk_no_nested(add.node) if isinstance(a_, ast.For) and any(x is sig[0] for x in ast.walk(a_))]
+        oksig = oksig and bool(lp_) and norm(lp_[0].iter) == "%s.resname_len_list" % top_p and norm(sig[0].test.left) == norm(lp_[0].target)
+    ctx.ob(rule, add, sig[0] if sig else "signature lookup", oksig,
+           "a residue signature (name, atom count) of the topology that does not occur in the coordinate file refuses the topology",
+           node=sig[0] if sig else add.node)
+    rs = pfind(add.node, "V_res = self.system_gro[V_si:V_si + len(E_pat)]")
+    mk = pfind(add.node, "Molecule(%s, V_res)" % top_p)
+    okr = bool(rs) and bool(mk) and rs[0][1]["V_res"] == mk[0][1]["V_res"] and \
+        phas(add.node, "%s = self._check_index_in_available_mgro(%s, %s)" % (rs[0][1]["V_si"], rs[0][1]["E_pat"], top_p))
+    ctx.ob(rule, add, rs[0][0] if rs else "first instance", okr,
+           "the species' template molecule is built from the residues of the first matching run and checked against the "
+           "topology (Molecule(topology, residues))", node=rs[0][0] if rs else add.node)
 
 
 def _telescopes(gen: Func, ctx: Ctx, rule: str):
@@ -284,11 +305,12 @@ def _telescopes(gen: Func, ctx: Ctx, rule: str):
             a_next = norm(Sub().visit(copy.deepcopy(a)))
             outer = loops[0]
             cnt = norm(inner.iter.args[0])
+            lens = pfind(gen.node, "V_n = len(self.different_molecules[%s].resnames)" % norm(outer.target.elts[0])) \
+                if isinstance(outer.target, ast.Tuple) else []
+            nvar = lens[0][1]["V_n"] if lens else "?"
             ok = norm(b) == a_next and isinstance(outer.target, ast.Tuple) and cnt == norm(outer.target.elts[2]) \
-                and norm(a) == "%s + %s * len_mol" % (norm(outer.target.elts[1]), i)
-            lens = [s for s in walk_no_nested(gen.node) if isinstance(s, ast.Assign) and norm(s.targets[0]) == "len_mol"]
-            ok = ok and bool(lens) and norm(lens[0].value) == "len(self.different_molecules[%s].resnames)" % norm(outer.target.elts[0]) \
-                and norm(k) == norm(outer.target.elts[0]) and norm(outer.iter) == "self._molecules_ordered"
+                and norm(a) == "%s + %s * %s" % (norm(outer.target.elts[1]), i, nvar)
+            ok = ok and bool(lens) and norm(k) == norm(outer.target.elts[0]) and norm(outer.iter) == "self._molecules_ordered"
             detail = "start=%s end=%s start[i+1]=%s count=%s" % (norm(a), norm(b), a_next, cnt)
     ctx.ob(rule, gen, ys[0] if ys else "generator", ok,
            "instance i of a block covers residues [start + i*n, start + (i+1)*n): consecutive, disjoint, as many as the "
@@ -343,12 +365,10 @@ def r11_4(ctx: Ctx, rule="R11.4"):
            "iteration and indexing enumerate instances with the same generator", node=gi.node)
     accessor_branches(ctx, rule, ("System.__getitem__", "SystemGro.__getitem__"))
     # counting accessors read the same block list
-    okl = norm(ln.node.body[-1]).replace(" ", "") in ("returnsum((elem[2]foreleminself._molecules_ordered))",
-                                                      "returnsum(elem[2]foreleminself._molecules_ordered)")
+    okl = phas(ln.node, "return sum((V_e[2] for V_e in self._molecules_ordered))")
     ctx.ob(rule, ln, ln.node.body[-1], okl, "the length is the sum of the block counts", node=ln.node)
-    txt = ast.unparse(comp.node)
-    flat = txt.replace("(", "").replace(")", "")
-    okc = "for index, _, ammount in self._molecules_ordered" in flat and "composition[self.different_molecules[index].name] += ammount" in txt
+    lp_ = pfind(comp.node, "for V_i, V_u, V_a in self._molecules_ordered: ...")
+    okc = bool(lp_) and phas(lp_[0][0], "V_c[self.different_molecules[%s].name] += %s" % (lp_[0][1]["V_i"], lp_[0][1]["V_a"]))
     ctx.ob(rule, comp, "composition", okc, "the composition adds each block's count to its species", node=comp.node)
 
 
@@ -392,18 +412,28 @@ def r11_5(ctx: Ctx, rule="R11.5"):
            "a molecule is built only after topology and residues were compared atom by atom (raise otherwise)",
            node=guards[0] if guards else init.node)
     # the comparison itself
-    txt = ast.unparse(chk.node)
     p_top, p_res = chk.params[:2]
-    okc = "len(%s) != sum((len(res) for res in %s))" % (p_top, p_res) in txt and \
-        "atom.resname != at_top.resname or atom.name != at_top.name" in txt and "at_top = %s[index]" % p_top in txt
-    paths = [p for p in enum_paths(chk.node.body)]
-    loop = [n for n in walk_no_nested(chk.node) if isinstance(n, ast.For)]
-    inc_ok = False
-    if loop:
-        inner = [n for n in walk_no_nested(loop[0]) if isinstance(n, ast.For) and n is not loop[0]]
+    cnt_ = pfind(chk.node, "if len(%s) != sum((len(V_r) for V_r in %s)):\n    return False" % (p_top, p_res))
+    outer = pfind(chk.node, "for V_res in %s: ..." % p_res)
+    okc, inc_ok = bool(cnt_), False
+    if outer:
+        inner = pfind(outer[0][0], "for V_atom in %s: ..." % outer[0][1]["V_res"])
         if inner:
-            incs = [s for s in inner[0].body if isinstance(s, ast.AugAssign) and norm(s.target) == "index" and const_int(s.value) == 1]
-            inc_ok = len(incs) == 1 and inner[0].body[-1] is incs[0]
+            av = inner[0][1]["V_atom"]
+            tops = pfind(inner[0][0], "V_at = %s[V_idx]" % p_top)
+            if tops:
+                tv, iv = tops[0][1]["V_at"], tops[0][1]["V_idx"]
+                cmp_ = pfind(inner[0][0], "if %s.resname != %s.resname or %s.name != %s.name:\n    return False" % (av, tv, av, tv))
+                okc = okc and bool(cmp_)
+                incs = [s_ for s_ in inner[0][0].body if isinstance(s_, ast.AugAssign) and norm(s_.target) == iv
+                        and const_int(s_.value) == 1 and isinstance(s_.op, ast.Add)]
+                inc_ok = len(incs) == 1 and inner[0][0].body[-1] is incs[0] and phas(chk.node, "%s = 0" % iv)
+            else:
+                okc = False
+        else:
+            okc = False
+    else:
+        okc = False
     ctx.ob(rule, chk, "atom-by-atom comparison", okc and inc_ok,
            "atom counts must agree, and atom i of the concatenated residues must have the residue name and atom name "
            "of topology atom i (one running index over all residues)", node=chk.node)
